@@ -30,6 +30,7 @@ type Term struct {
 	key  string
 	vs   []*Term // free variables, sorted by name
 	uf   bool    // contains an uninterpreted function application
+	cvcOnly bool // contains a cvc5 extension z3 does not know (str.to_lower / str.to_upper)
 }
 
 const termShards = 4096
@@ -52,7 +53,7 @@ func intern(t *Term) *Term {
 	buf = append(buf, t.Op...)
 	buf = append(buf, '|')
 	switch t.Op {
-	case "var", "uf":
+	case "var", "uf", "raw":
 		buf = append(buf, t.Name...)
 		buf = append(buf, '#', byte('0'+t.Sort))
 	case "cs":
@@ -79,9 +80,13 @@ func intern(t *Term) *Term {
 	}
 	t.key = string(buf)
 	t.uf = t.Op == "uf"
+	t.cvcOnly = t.Op == "str.to_lower" || t.Op == "str.to_upper"
 	for _, a := range t.Args {
 		if a.uf {
 			t.uf = true
+		}
+		if a.cvcOnly {
+			t.cvcOnly = true
 		}
 	}
 	// free variables
@@ -478,6 +483,9 @@ func mkFromInt(a *Term) *Term {
 	return mkIte(neg, negs, pos)
 }
 
+// mkRaw is a literal SMT-LIB fragment (regular expressions).
+func mkRaw(text string) *Term { return intern(&Term{Op: "raw", Name: text, Sort: SStr}) }
+
 func mkUF(name string, sort Sort, args ...*Term) *Term {
 	return intern(&Term{Op: "uf", Name: name, Args: args, Sort: sort})
 }
@@ -522,6 +530,9 @@ func (t *Term) writeSMT(sb *strings.Builder) {
 		return
 	case "cb":
 		fmt.Fprint(sb, t.B)
+		return
+	case "raw":
+		sb.WriteString(t.Name)
 		return
 	}
 	sb.WriteByte('(')
